@@ -318,6 +318,35 @@ impl Inst {
         })
     }
 
+    /// expected `Register::serialize(v)` (independent spec); None = no oracle
+    fn spec_serialize(&self, r: &RegRef, v: &Val) -> Option<Result<Vec<u8>, &'static str>> {
+        Some(match (&r.kind, v) {
+            (Kind::Scalar { size, .. }, Val::Word(w)) => Ok(word_to(r.map.endian, *size, *w)),
+            (Kind::Bytes, Val::Bytes(b)) => if b.len() == r.reg.len { Ok(b.clone()) } else { Err("InvalidRegisterData") },
+            (Kind::Str, Val::Str(s)) => {
+                if s.iter().any(|c| *c >= 128) || s.len() > r.reg.len {
+                    Err("InvalidRegisterData")
+                } else if s.contains(&0) {
+                    return None; // F-C20-5 class: accepted today, a refusal would be fine too
+                } else {
+                    let mut o = s.clone();
+                    o.resize(r.reg.len, 0);
+                    Ok(o)
+                }
+            }
+            (Kind::Bf { bits, signed, lsb, msb, .. }, Val::Word(w)) => {
+                let num = numeric(*signed, *bits, *w);
+                let (lo, hi) = spec_range(*signed, msb - lsb + 1);
+                if num < lo || num > hi {
+                    Err("InvalidRegisterData")
+                } else {
+                    Ok(word_to(r.map.endian, (*bits / 8) as usize, (*w << lsb) & spec_mask(*lsb, *msb)))
+                }
+            }
+            _ => return None,
+        })
+    }
+
     fn check_state(&mut self, cx: &mut Ctx, op: &str) {
         if self.mem.raw() != &self.sh_raw[..] {
             cx.violation(self, json!({"kind": "memory-image", "op": op}), format!("memory image after {op} differs from the specified one"));
@@ -429,7 +458,15 @@ impl Inst {
                 let range = self.regs[i].range();
                 cx.rep.case(&format!("{name} {line} {}", self.raw_digest()), got == "ok");
                 cx.rep.count(&format!("wt:{got}"));
-                let spec = self.spec_write(&self.regs[i], &v);
+                let mut spec = self.spec_write(&self.regs[i], &v);
+                // F-C20-5 class (ASCII string with NUL that fits): a refusal is as good as the
+                // (known) acceptance-with-truncation; only the latter is reported, as known finding
+                if let (Val::Str(sv), Some(Ok(_))) = (&v, &spec) {
+                    if sv.contains(&0) && got == "err InvalidRegisterData" {
+                        cx.rep.count("str-with-nul:refused");
+                        spec = Some(Err("InvalidRegisterData"));
+                    }
+                }
                 match &spec {
                     Some(exp) => {
                         let exp_s = match exp { Ok(_) => "ok".to_string(), Err(e) => format!("err {e}") };
@@ -511,6 +548,40 @@ impl Inst {
                     cx.violation(self, json!({"kind": "cells", "what": "cell"}), format!("protection.access_right({a}) = {ans}"));
                 }
                 cx.rep.expect(format!("c20 pg {name} {a}"), ans);
+            }
+            "ser" => {
+                let i = self.reg_index(t[1], t[2]);
+                let v = Val::parse(t[3]);
+                let r = catch(|| match self.mem.reg_op(i, Op::Serialize(&v)) { Out::Bytes(b) => b, _ => panic!("bad value kind") });
+                let ans = match &r { Ok(Ok(b)) => format!("ok {}", hex(b)), _ => res3(&r) };
+                cx.rep.case(&format!("ser {} {} {}", t[1], t[2], t[3]), matches!(r, Ok(Ok(_))));
+                if let Some(exp) = self.spec_serialize(&self.regs[i], &v) {
+                    let exp = match exp { Ok(b) => format!("ok {}", hex(&b)), Err(e) => format!("err {e}") };
+                    if exp != ans {
+                        let sig = self.bf_sig(i, "serialize");
+                        cx.violation(self, sig, format!("{}::{}::serialize({}) = {ans}, specified {exp}", t[1], t[2], v.show()));
+                    }
+                }
+                self.check_state(cx, "serialize");
+                cx.rep.expect(format!("c20 ser {} {} {}", t[1], t[2], v.show()), ans);
+            }
+            "parse" => {
+                let i = self.reg_index(t[1], t[2]);
+                let d = unhex(t[3]);
+                let r = catch(|| match self.mem.reg_op(i, Op::Parse(&d)) { Out::Val(v) => v, _ => unreachable!() });
+                let ans = match &r { Ok(Ok(v)) => format!("ok {}", v.show()), _ => res3(&r) };
+                cx.rep.case(&format!("parse {} {} {}", t[1], t[2], t[3]), matches!(r, Ok(Ok(_))));
+                // oracle for strings: data of the register's length
+                if let Kind::Str = self.regs[i].kind {
+                    if d.len() == self.regs[i].reg.len {
+                        let end = d.iter().position(|c| *c == 0).unwrap_or(d.len());
+                        let exp = if d[..end].iter().all(|c| *c < 128) { format!("ok s:{}", hex(&d[..end])) } else { "err InvalidRegisterData".to_string() };
+                        if exp != ans {
+                            cx.violation(self, json!({"kind": "typed", "what": "parse", "ty": "str"}), format!("{}::{}::parse({}) = {ans}, specified {exp}", t[1], t[2], t[3]));
+                        }
+                    }
+                }
+                cx.rep.expect(format!("c20 parse {} {} {}", t[1], t[2], hex(&d)), ans);
             }
             "sweep" => self.exec_sweep(cx, &t),
             other => panic!("unknown op {other}"),
